@@ -291,7 +291,9 @@ def _solve_node(c, A, b, lower, upper, minimize, eps, max_iter):
     c_red = [c[j] for j in free_vars]
     fixed_obj = sum(c[j] * fixed[j] for j in fixed)
 
-    result = solve_lp(c_red, A_red, b_red, minimize=minimize, eps=eps, max_iter=max_iter)
+    # eps is the integrality tolerance; as a pivot tolerance it is far too coarse (ratios 1/100 and 100/10001
+    # would tie), so the relaxation runs with the simplex's own default
+    result = solve_lp(c_red, A_red, b_red, minimize=minimize, max_iter=max_iter)
 
     if result.status != LPStatus.OPTIMAL:
         return result
